@@ -19,7 +19,10 @@ impl AncestorsScoreSortKey {
         let tx_weight = u128::from(self.fee.as_u64()) * u128::from(self.ancestors_weight);
         let ancestors_weight = u128::from(self.ancestors_fee.as_u64()) * u128::from(self.weight);
 
-        if tx_weight < ancestors_weight {
+        // `ancestors_weight == 0` only happens when the ancestors_* aggregates went stale and saturated to zero;
+        // a pair with zero weight compares "equal" to every key (0 == 0 after cross-multiplication), which makes the
+        // order non-transitive and corrupts the ordered index of the pool map: never select it
+        if self.ancestors_weight == 0 || tx_weight < ancestors_weight {
             (self.fee, self.weight)
         } else {
             (self.ancestors_fee, self.ancestors_weight)
